@@ -38,6 +38,11 @@ LocsJ(ls) == TLCEval([i \in 1..Len(ls) |-> RSeq(ls[i])])
 Near(a, b, eps) == IF eps = RZero THEN a = b ELSE RLe(RAbs(RSub(a, b)), eps)
 NearSeq(s, t, eps) == Len(s) = Len(t) /\ \A i \in 1..Len(s) : Near(s[i], t[i], eps)
 BadSeq(s) == \E i \in 1..Len(s) : RBad(s[i])
+(* a float result of the code: exact [num, den] where lattice inputs bound the true denominator,
+   otherwise fixed point [round(x * scale), scale, 1] with the derived slack of one unit
+   (half a unit of rounding + float error); the comparison never overflows *)
+Match(want, o) == IF Len(o) = 2 THEN want = Rat(o[1], o[2])
+                  ELSE RLe(Rat(o[1] - 1, o[2]), want) /\ RLe(want, Rat(o[1] + 1, o[2]))
 
 (* ---- supportScalar / normalizeValue / piecewiseLinearMap ------------------------------------ *)
 (* each trace carries one region / triple / map and a list of arguments with the code's results *)
@@ -114,7 +119,7 @@ JStore(r) ==
   IN IF ~StoreWellFormed(st) THEN "malformed:store-before"
      ELSE IF r.op = "eval" THEN
         (LET vs == {LET want == StoreEval(st, <<r.vals[i][1], r.vals[i][2]>>, locs[r.vals[i][3] + 1])
-                    IN IF RBad(want) THEN "overflow" ELSE IF want = Rat(r.vals[i][4][1], r.vals[i][4][2]) THEN "ok" ELSE "differs"
+                    IN IF RBad(want) THEN "overflow" ELSE IF Match(want, r.vals[i][4]) THEN "ok" ELSE "differs"
                       : i \in 1..Len(r.vals)}
          IN IF "differs" \in vs THEN "store:instancer-differs" ELSE IF "overflow" \in vs THEN "skip:overflow" ELSE "ok")
      ELSE IF r.op = "build" THEN
